@@ -90,15 +90,20 @@ def _ops(op, rep, c=None):
     return [op, FOLLOW[0]], {0: pfx(c or {}, rep), 1: pfx(c or {}, FOLLOW[1])}
 
 
-def make_hash(pooling):
+def make_hash(pooling, spelled=False):
     def mk(server, kw):
         from pymemcache.client.hash import HashClient
         kw = dict(kw)
+        if spelled:
+            # the same server written as a string ("host", "unix:/path"); a failing server is dropped at the first failure
+            server = server[0] if isinstance(server, tuple) else "unix:" + server
+            return HashClient([server], use_pooling=pooling, retry_attempts=0, retry_timeout=1, dead_timeout=60, **kw)
         return HashClient([server], use_pooling=pooling, retry_attempts=2, retry_timeout=1, dead_timeout=60, **kw)
     return mk
 
 
-STACKS = ["Client", "PooledClient", "HashClient", "HashClient(use_pooling)"]
+STACKS = ["Client", "PooledClient", "HashClient", "HashClient(use_pooling)", "HashClient(str spec, retry_attempts=0)",
+          "HashClient(use_pooling, str spec, retry_attempts=0)"]
 
 
 def run_stack(stack, c, op, sc, ch, rep):
@@ -107,7 +112,7 @@ def run_stack(stack, c, op, sc, ch, rep):
         return cs.run_impl(c, ops, sc, ch, (), None, None, rbo, apply=cs.apply_op_kw)[0]
     if stack == "PooledClient":
         return [x[0] for x in cs.run_pooled(c, (2, 0), ops, sc, ch, (), (), rbo, apply=cs.apply_op_kw)[0]]
-    return cs.run_impl(c, ops, sc, ch, (), make_hash(stack != "HashClient"), None, rbo, apply=cs.apply_op_kw)[0]
+    return cs.run_impl(c, ops, sc, ch, (), make_hash("use_pooling" in stack, "str spec" in stack), None, rbo, apply=cs.apply_op_kw)[0]
 
 
 # ---- HashClient over scripted inner clients: every failure class at the seam, every failover state
